@@ -13,9 +13,10 @@ from props.c09 import first_diff, count_results, has_unfinished
 from props.c18 import writer_shaped
 
 PROPERTY = "C20"
-LEAN_MODULES = ["LccModel.Props.C20", "LccModel.Props.C20Short"]
-PROPS_FILES = ["LccModel/Props/C20.lean", "LccModel/Props/C20Short.lean"]
-NAMESPACES = {"LccModel/Props/C20.lean": "LccModel.C20", "LccModel/Props/C20Short.lean": "LccModel.C20Short"}
+LEAN_MODULES = ["LccModel.Props.C20", "LccModel.Props.C20Short", "LccModel.Props.C20Live"]
+PROPS_FILES = ["LccModel/Props/C20.lean", "LccModel/Props/C20Short.lean", "LccModel/Props/C20Live.lean"]
+NAMESPACES = {"LccModel/Props/C20.lean": "LccModel.C20", "LccModel/Props/C20Short.lean": "LccModel.C20Short",
+              "LccModel/Props/C20Live.lean": "LccModel.C20"}
 DRIVER = "drivers/C20.lean"
 TRUSTED_BASE = [
     "Lean 4.33.0 kernel; axioms of the property theorems ⊆ {propext, Classical.choice, Quot.sound}",
@@ -34,12 +35,15 @@ ASSUMPTIONS = [
     "the JUnit root attribute `tests` counts PASSED tests only (observed, not a finding: the property speaks of per-suite counters)",
 ]
 RULE = ("a generated report rendered through the real JUnit backend, ReportStats, build_message, the console summary, and pairs of "
-        "reports through compute_diff; non-trivial = at least 2 tests with at least 2 different statuses (views) / at least one test "
+        "reports through compute_diff; C20.live: the views evaluated at several moments on ONE live report the real writer is filling "
+        "(JUnit file session attached), and real runs with console+json+junit (non-trivial = two evaluations that see different numbers "
+        "of tests / a real run of >= 2 tests whose JUnit file was saved before the end); non-trivial = at least 2 tests with at least 2 different statuses (views) / at least one test "
         "in each of two diff classes (diff); distinct = hash of the case")
 EXPLANATION = ("Theorems: under the writer invariant the JUnit export marks a finished test failed/errored iff its status is failed and "
                "skipped iff skipped (refuted for in-progress tests, D7); per-suite counters, statistics, message variables and the "
                "console numbers equal the counts over Report.all_tests(); compute_diff partitions both test lists and is empty on "
-               "equal inputs. The model is tied to the code by rendering generated reports with the real backends.")
+               "equal inputs. Every evaluation of a view on a live report gives the counts of the report as it is at that moment "
+               "(live_views_count_the_report_as_it_is). The model is tied to the code by rendering generated reports with the real backends.")
 
 ANSI = re.compile(r"\x1b\[[0-9;]*m")
 
@@ -52,6 +56,11 @@ def real_junit(rep, workdir):
         JunitBackend().save_report(path, rep)
     except TypeError:
         return {"err": "TypeError"}
+    return parse_junit(path)
+
+
+def parse_junit(path):
+    import xml.etree.ElementTree as ET
     root = ET.parse(path).getroot()
     suites = []
     for s in root.findall("testsuite"):
@@ -87,7 +96,11 @@ def real_summary(rep):
     buf = io.StringIO()
     with contextlib.redirect_stdout(buf):
         _print_summary(ReportStats.from_report(rep), rep.parallelized)
-    text = ANSI.sub("", buf.getvalue())
+    return parse_summary(buf.getvalue())
+
+
+def parse_summary(text):
+    text = ANSI.sub("", text)
     out = {"tests": None, "successes": None, "failures": None, "skipped": None, "disabled": None}
     for key, label in (("tests", "Tests"), ("successes", "Successes"), ("failures", "Failures"), ("skipped", "Skipped"),
                        ("disabled", "Disabled")):
@@ -138,6 +151,117 @@ def counts(tests):
     return c
 
 
+def FAIL(where, sig, msg):
+    return C.Failure(sig, (where + ": " if where else "") + msg)
+
+
+def views_failures(desc, obs, where=""):
+    """the property's statement on ONE evaluation of the views (`obs`) against a direct enumeration of the report description
+    `desc` (the report as it is when the views are evaluated); `where` prefixes the messages"""
+    tests = desc_tests(desc)
+    exp = counts(tests)
+    fails = []
+    st = obs["stats"]
+
+    for k in ("total", "enabled", "passed", "failed", "skipped", "disabled"):
+        if st[k] != exp[k]:
+            fails.append(FAIL(where, "C20/stats/count-differs", f"ReportStats {k}={st[k]}, enumeration gives {exp[k]}"))
+        if "err" not in obs["vars"] and obs["vars"][k] != exp[k]:
+            fails.append(FAIL(where, "C20/message/var-differs", f"build_message {k}={obs['vars'][k]}, enumeration gives {exp[k]}"))
+    if "err" in obs["vars"]:
+        if desc["start"] is not None and desc["end"] is None:
+            fails.append(FAIL(where, "C20/message/unfinished-report-raises",
+                                   "Report.build_message raises TypeError on a report without end time"))
+        elif desc["start"] is not None:
+            fails.append(FAIL(where, "C20/message/raised", "Report.build_message raised TypeError"))
+    sm = obs["summary"]
+    exp_sm = {"tests": exp["total"], "successes": exp["passed"], "failures": exp["failed"],
+              "skipped": exp["skipped"] or None, "disabled": exp["disabled"] or None}
+    if sm != exp_sm:
+        fails.append(FAIL(where, "C20/console/summary-differs", f"console summary {sm}, enumeration gives {exp_sm}"))
+    ju = obs["junit"]
+    if "err" in ju:
+        missing = any(t["res"]["start"] is None for _, t in tests) or desc["start"] is None
+        if not missing:
+            fails.append(FAIL(where, "C20/junit/save-raised", "JUnit save raised " + ju["err"]))
+        return fails
+    # per suite counters and per test marks, suites matched by their dotted path (k-th of that name with the k-th)
+    by_suite = {}
+    for name, ts in desc_suites(desc):
+        if ts:
+            by_suite.setdefault(name, []).append(ts)
+    seen = {}
+    for s in ju["suites"]:
+        seen.setdefault(s["name"], []).append(s)
+    pairs = []
+    for name, lst in by_suite.items():
+        if len(seen.get(name, [])) != len(lst):
+            fails.append(FAIL(where, "C20/junit/suite-missing", f"suite {name!r} appears {len(seen.get(name, []))} times in the JUnit file, "
+                                                              f"{len(lst)} suite(s) of that path hold tests"))
+            continue
+        pairs += [(name, s, ts) for s, ts in zip(seen[name], lst)]
+    for name, s, ts in pairs:
+        c = counts([(None, t) for t in ts])
+        if (s["tests"], s["failures"], s["skipped"]) != (c["total"], c["failed"], c["skipped"]):
+            fails.append(FAIL(where, "C20/junit/suite-counters", f"suite {name!r}: tests/failures/skipped = "
+                                   f"{s['tests']}/{s['failures']}/{s['skipped']}, enumeration gives {c['total']}/{c['failed']}/{c['skipped']}"))
+        cases = {}
+        for cs in s["cases"]:
+            cases.setdefault(cs["name"], []).append(cs)
+        for t in ts:
+            cl = cases.get(t["md"]["name"], [])
+            if len(cl) != 1:
+                fails.append(FAIL(where, "C20/junit/testcase-missing", f"test {t['md']['name']!r} appears {len(cl)} times"))
+                continue
+            tags = [ch[0] for ch in cl[0]["children"]]
+            failed_mark = any(x in ("failure", "error") for x in tags)
+            skipped_mark = "skipped" in tags
+            status = t["res"]["status"]
+            if status is None:
+                if failed_mark or skipped_mark:
+                    fails.append(FAIL(where, "C20/junit/in-progress-test-marked-failed",
+                                           f"in-progress test {t['md']['name']!r} is marked {tags} in the JUnit file"))
+                continue
+            if not obs["writer_shaped"]:
+                continue
+            if failed_mark != (status == "failed"):
+                fails.append(FAIL(where, "C20/junit/failed-mark-differs", f"test {t['md']['name']!r} status {status} but JUnit children {tags}"))
+            if skipped_mark != (status == "skipped"):
+                fails.append(FAIL(where, "C20/junit/skipped-mark-differs", f"test {t['md']['name']!r} status {status} but JUnit children {tags}"))
+    for name in seen:
+        if name not in by_suite:
+            fails.append(FAIL(where, "C20/junit/extra-suite", f"JUnit lists suite {name!r} which has no tests"))
+    return fails
+
+
+
+def compare_views(obs, ans):
+    if "error" in ans:
+        return "model error: " + ans["error"]
+    mj = ans["junit"]
+    if "err" in mj or "err" in obs["junit"]:
+        if mj.get("err") != obs["junit"].get("err"):
+            return f"junit: real {obs['junit'].get('err', 'ok')} vs model {mj.get('err', 'ok')}"
+    else:
+        mjs = {"tests": mj["tests"], "failures": mj["failures"],
+               "suites": [{"name": R.unwire_str(s["name"]), "tests": s["tests"], "failures": s["failures"], "skipped": s["skipped"],
+                           "cases": [{"name": R.unwire_str(c["name"]),
+                                      "children": [[ch[0], R.unwire_str(ch[1])] for ch in c["children"]]} for c in s["cases"]]}
+                          for s in mj["suites"]]}
+        d = first_diff(obs["junit"], mjs)
+        if d:
+            return f"junit differs at {d[0]}: real {d[1]!r} model {d[2]!r}"
+    for k in ("stats", "vars", "summary"):
+        real = obs[k]
+        mod = ans[k]
+        if k == "stats":
+            real = {x: real[x] for x in mod}
+        if real != mod:
+            return f"{k} differ: real {real} model {mod}"
+    return None
+
+
+
 class ViewsStream(C.Stream):
     name = "C20.views"
     quick_cases = 300
@@ -166,108 +290,13 @@ class ViewsStream(C.Stream):
                 "summary": real_summary(rep), "writer_shaped": writer_shaped(desc)}
 
     def oracle(self, case, obs):
-        desc = R.strip_private(case["report"])
-        tests = desc_tests(desc)
-        exp = counts(tests)
-        fails = []
-        st = obs["stats"]
-        for k in ("total", "enabled", "passed", "failed", "skipped", "disabled"):
-            if st[k] != exp[k]:
-                fails.append(C.Failure("C20/stats/count-differs", f"ReportStats {k}={st[k]}, enumeration gives {exp[k]}"))
-            if "err" not in obs["vars"] and obs["vars"][k] != exp[k]:
-                fails.append(C.Failure("C20/message/var-differs", f"build_message {k}={obs['vars'][k]}, enumeration gives {exp[k]}"))
-        if "err" in obs["vars"]:
-            if desc["start"] is not None and desc["end"] is None:
-                fails.append(C.Failure("C20/message/unfinished-report-raises",
-                                       "Report.build_message raises TypeError on a report without end time"))
-            elif desc["start"] is not None:
-                fails.append(C.Failure("C20/message/raised", "Report.build_message raised TypeError"))
-        sm = obs["summary"]
-        exp_sm = {"tests": exp["total"], "successes": exp["passed"], "failures": exp["failed"],
-                  "skipped": exp["skipped"] or None, "disabled": exp["disabled"] or None}
-        if sm != exp_sm:
-            fails.append(C.Failure("C20/console/summary-differs", f"console summary {sm}, enumeration gives {exp_sm}"))
-        ju = obs["junit"]
-        if "err" in ju:
-            missing = any(t["res"]["start"] is None for _, t in tests) or desc["start"] is None
-            if not missing:
-                fails.append(C.Failure("C20/junit/save-raised", "JUnit save raised " + ju["err"]))
-            return fails
-        # per suite counters and per test marks, suites matched by their dotted path (k-th of that name with the k-th)
-        by_suite = {}
-        for name, ts in desc_suites(desc):
-            if ts:
-                by_suite.setdefault(name, []).append(ts)
-        seen = {}
-        for s in ju["suites"]:
-            seen.setdefault(s["name"], []).append(s)
-        pairs = []
-        for name, lst in by_suite.items():
-            if len(seen.get(name, [])) != len(lst):
-                fails.append(C.Failure("C20/junit/suite-missing", f"suite {name!r} appears {len(seen.get(name, []))} times in the JUnit file, "
-                                                                  f"{len(lst)} suite(s) of that path hold tests"))
-                continue
-            pairs += [(name, s, ts) for s, ts in zip(seen[name], lst)]
-        for name, s, ts in pairs:
-            c = counts([(None, t) for t in ts])
-            if (s["tests"], s["failures"], s["skipped"]) != (c["total"], c["failed"], c["skipped"]):
-                fails.append(C.Failure("C20/junit/suite-counters", f"suite {name!r}: tests/failures/skipped = "
-                                       f"{s['tests']}/{s['failures']}/{s['skipped']}, enumeration gives {c['total']}/{c['failed']}/{c['skipped']}"))
-            cases = {}
-            for cs in s["cases"]:
-                cases.setdefault(cs["name"], []).append(cs)
-            for t in ts:
-                cl = cases.get(t["md"]["name"], [])
-                if len(cl) != 1:
-                    fails.append(C.Failure("C20/junit/testcase-missing", f"test {t['md']['name']!r} appears {len(cl)} times"))
-                    continue
-                tags = [ch[0] for ch in cl[0]["children"]]
-                failed_mark = any(x in ("failure", "error") for x in tags)
-                skipped_mark = "skipped" in tags
-                status = t["res"]["status"]
-                if status is None:
-                    if failed_mark or skipped_mark:
-                        fails.append(C.Failure("C20/junit/in-progress-test-marked-failed",
-                                               f"in-progress test {t['md']['name']!r} is marked {tags} in the JUnit file"))
-                    continue
-                if not obs["writer_shaped"]:
-                    continue
-                if failed_mark != (status == "failed"):
-                    fails.append(C.Failure("C20/junit/failed-mark-differs", f"test {t['md']['name']!r} status {status} but JUnit children {tags}"))
-                if skipped_mark != (status == "skipped"):
-                    fails.append(C.Failure("C20/junit/skipped-mark-differs", f"test {t['md']['name']!r} status {status} but JUnit children {tags}"))
-        for name in seen:
-            if name not in by_suite:
-                fails.append(C.Failure("C20/junit/extra-suite", f"JUnit lists suite {name!r} which has no tests"))
-        return fails
+        return views_failures(R.strip_private(case["report"]), obs)
 
     def request(self, case, obs):
         return {"op": "views", "report": R.wire(case["report"])}
 
     def compare(self, case, obs, ans):
-        if "error" in ans:
-            return "model error: " + ans["error"]
-        mj = ans["junit"]
-        if "err" in mj or "err" in obs["junit"]:
-            if mj.get("err") != obs["junit"].get("err"):
-                return f"junit: real {obs['junit'].get('err', 'ok')} vs model {mj.get('err', 'ok')}"
-        else:
-            mjs = {"tests": mj["tests"], "failures": mj["failures"],
-                   "suites": [{"name": R.unwire_str(s["name"]), "tests": s["tests"], "failures": s["failures"], "skipped": s["skipped"],
-                               "cases": [{"name": R.unwire_str(c["name"]),
-                                          "children": [[ch[0], R.unwire_str(ch[1])] for ch in c["children"]]} for c in s["cases"]]}
-                              for s in mj["suites"]]}
-            d = first_diff(obs["junit"], mjs)
-            if d:
-                return f"junit differs at {d[0]}: real {d[1]!r} model {d[2]!r}"
-        for k in ("stats", "vars", "summary"):
-            real = obs[k]
-            mod = ans[k]
-            if k == "stats":
-                real = {x: real[x] for x in mod}
-            if real != mod:
-                return f"{k} differ: real {real} model {mod}"
-        return None
+        return compare_views(obs, ans)
 
     def nontrivial(self, case, obs):
         sts = {t["res"]["status"] for _, t in desc_tests(case["report"])}
@@ -291,6 +320,278 @@ class ViewsStream(C.Stream):
     def shrink(self, case):
         for c in R.shrink_desc(case["report"]):
             yield {"report": c}
+
+
+# ---- the views evaluated several times on ONE live report -----------------------------------------------
+
+LIVE_STRATEGIES = [None, "at_each_test", "at_each_failed_test", "at_each_failed_test", "at_each_suite", "at_each_log", "at_end_of_tests"]
+
+
+def _spec_suites(suites):
+    for s in suites:
+        yield s
+        yield from _spec_suites(s["subs"])
+
+
+def run_real_views(case, top):
+    """a REAL run with the console, JSON and JUnit backends created by `Session.create` in the given order and one saving
+    strategy: what the console printed at the end, what report-junit.xml holds, what `build_message` / `ReportStats` answer on
+    the live report — against the tests of the report LOADED from report.js"""
+    from props import c10 as X10
+    from lemoncheesecake import runner
+    from lemoncheesecake.events import AsyncEventManager
+    from lemoncheesecake.session import Session
+    from lemoncheesecake.fixture import FixtureRegistry
+    from lemoncheesecake.suite import resolve_tests_dependencies
+    from lemoncheesecake.reporting.savingstrategy import make_report_saving_strategy
+    from lemoncheesecake.reporting.backends.console import ConsoleBackend
+    from lemoncheesecake.reporting.backends.json_ import JsonBackend
+    from lemoncheesecake.reporting.backends.junit import JunitBackend
+    from lemoncheesecake.reporting import load_report
+    spec = case["spec"]
+    suites = X10._build_real_suites(spec)
+    resolve_tests_dependencies(suites, suites)
+    nb = spec["nb_threads"]
+    junit = JunitBackend()
+    saves = [0]
+    orig = junit.save_report
+
+    def counting(filename, rep):
+        saves[0] += 1
+        return orig(filename, rep)
+    junit.save_report = counting
+    bes = {"console": ConsoleBackend(), "json": JsonBackend(), "junit": junit}
+    old = Session._instance
+    buf = io.StringIO()
+    failure = None
+    try:
+        with contextlib.redirect_stdout(buf):
+            em = AsyncEventManager.load()
+            session = Session.create(em, [bes[n] for n in case["backends"]], top, make_report_saving_strategy(case["strategy"]), nb_threads=nb)
+            try:
+                runner.run_suites(suites, FixtureRegistry(), session, nb_threads=nb)
+            except Exception as e:      # classified
+                failure = type(e).__name__
+        report = session.report
+        out = {"failure": failure, "views": [], "junit_saves": saves[0]}
+        js = os.path.join(top, "report.js")
+        if failure is None and os.path.exists(js):
+            loaded = load_report(js)
+            ju = os.path.join(top, "report-junit.xml")
+            out["views"].append({"k": -1, "desc": R.canon_report(loaded),
+                                 "junit": parse_junit(ju) if os.path.exists(ju) else {"err": "missing"},
+                                 "stats": real_stats(report), "vars": real_vars(report), "summary": parse_summary(buf.getvalue()),
+                                 "writer_shaped": True})
+        return out
+    finally:
+        Session._instance = old
+
+
+class LiveStream(C.Stream):
+    """What `lcc run --reporting console json junit` does: ONE `Report` object, mutated by the real `ReportWriter` event after
+    event; the JUnit backend's file session (when attached) exports it each time the saving strategy fires, the views (ReportStats,
+    console summary, build_message, a JUnit export) are evaluated at several moments of the run and at its end ON THE SAME
+    OBJECT.  Each evaluation must agree with an enumeration of the report as it is at that moment."""
+    name = "C20.live"
+    quick_cases = 120
+    thorough_cases = 1500
+    quick_seconds = 20
+    thorough_seconds = 240
+    chunk = 20
+    corpus = []
+
+    def setup(self, ctx):
+        self.dir = tempfile.mkdtemp(prefix="lccverif-c20l-")
+
+    def teardown(self, ctx):
+        shutil.rmtree(self.dir, ignore_errors=True)
+
+    def gen(self, rng, i):
+        if i % 6 == 5:
+            # a REAL run (`runner.run_suites`, worker pool, AsyncEventManager) with the console, JSON and JUnit backends attached
+            # through `Session.create`, as `lcc run --reporting console json junit --save-report <strategy>` does
+            from props import c10 as X10
+            spec = X10.gen_real_spec(rng, "plain")
+            for st in _spec_suites(spec["suites"]):
+                for t in st["tests"]:
+                    t["acts"] = [a for a in t["acts"] if a[0] not in ("info", "threads")]
+            backends = ["console", "json", "junit"]
+            rng.shuffle(backends)
+            return {"kind": "real", "spec": spec, "backends": backends,
+                    "strategy": rng.choice(["at_each_failed_test", "at_each_failed_test", "at_each_test", "at_each_suite", "at_each_log", "every_0s"])}
+        rep = R.strip_private(R.gen_report(rng, rng.choice(["safe", "plain"]), max_depth=rng.choice([2, 3]), unfinished=0.15))
+        events = R.events_of_desc(rep, rng, tids=(1, 2))
+        n = len(events)
+        ends = [k + 1 for k, e in enumerate(events) if e["e"] in ("testEnd", "testSkipped", "testDisabled")]
+        cuts = set(rng.sample(range(1, n + 1), min(n, rng.choice([1, 2, 3]))))
+        if ends:
+            cuts |= set(rng.sample(ends, min(len(ends), rng.choice([1, 2]))))
+        cuts.add(n)
+        return {"events": events, "nb_threads": rep["nb_threads"], "cuts": sorted(cuts), "junit_session": rng.choice(LIVE_STRATEGIES)}
+
+    def impl(self, case):
+        from lemoncheesecake.reporting.report import Report
+        from lemoncheesecake.reporting.writer import ReportWriter
+        from lemoncheesecake.reporting.backends.junit import JunitBackend
+        from lemoncheesecake.reporting.savingstrategy import make_report_saving_strategy
+        from lemoncheesecake.events import SyncEventManager
+        if not getattr(self, "dir", None):
+            self.dir = tempfile.mkdtemp(prefix="lccverif-c20l-")
+        top = tempfile.mkdtemp(prefix="run-", dir=self.dir)
+        if case.get("kind") == "real":
+            try:
+                return run_real_views(case, top)
+            finally:
+                shutil.rmtree(top, ignore_errors=True)
+        try:
+            report = Report()
+            report.nb_threads = case["nb_threads"]
+            em = SyncEventManager.load()
+            em.add_listener(ReportWriter(report))          # subscription order of `Session.create` + `initialize_reporting_sessions`
+            saves = []
+            if case.get("junit_session"):
+                be = JunitBackend()
+                orig = be.save_report
+                def counting(filename, rep, _o=orig):
+                    saves.append(len(evals["handled"]))
+                    return _o(filename, rep)
+                be.save_report = counting
+                em.add_listener(be.create_reporting_session(top, report, case["nb_threads"] > 1,
+                                                            make_report_saving_strategy(case["junit_session"])))
+            evals = {"handled": [], "views": []}
+            cuts = set(case["cuts"])
+            scratch = os.path.join(top, "views")
+            os.makedirs(scratch)
+            failure = None
+            for k, e in enumerate(case["events"], 1):
+                try:
+                    em.fire(R.build_event(e, report))
+                except Exception as exc:     # classified: a handler (writer / JUnit session) raised
+                    failure = {"k": k, "cls": type(exc).__name__, "msg": str(exc)[:200]}
+                    break
+                evals["handled"].append(k)
+                if k in cuts:
+                    evals["views"].append({"k": k, "desc": R.canon_report(report), "junit": real_junit(report, scratch),
+                                           "stats": real_stats(report), "vars": real_vars(report), "summary": real_summary(report),
+                                           "writer_shaped": True})
+            out = {"views": evals["views"], "failure": failure, "session_saves": saves, "session_file": None}
+            path = os.path.join(top, "report-junit.xml")
+            if os.path.exists(path):
+                # the file the run leaves behind: its root counters against the report at the end of the run
+                import xml.etree.ElementTree as ET
+                root = ET.parse(path).getroot()
+                out["session_file"] = {"tests": int(root.attrib["tests"]), "failures": int(root.attrib["failures"]),
+                                       "suites": {x.attrib["name"]: int(x.attrib["tests"]) for x in root.findall("testsuite")}}
+                out["final_desc"] = R.canon_report(report)
+            return out
+        finally:
+            shutil.rmtree(top, ignore_errors=True)
+
+    def oracle(self, case, obs):
+        fails = []
+        if case.get("kind") == "real":
+            if obs["failure"]:
+                return [C.Failure("C20/live/run-raised/" + obs["failure"], "the run raised")]
+            if obs["views"]:
+                fails += views_failures(obs["views"][0]["desc"], obs["views"][0],
+                                        "end of a real run with %s attached (%s): views of the live report vs the tests of the loaded report.js"
+                                        % ("+".join(case["backends"]), case["strategy"]))
+            return fails
+        if obs["failure"]:
+            f = obs["failure"]
+            fails.append(C.Failure("C20/live/handler-raised/" + f["cls"], "event %d of a well-formed stream: %s" % (f["k"], f["msg"])))
+        for n, v in enumerate(obs["views"], 1):
+            where = "evaluation #%d on the same Report object, after event %d of %d" % (n, v["k"], len(case["events"]))
+            fails += views_failures(v["desc"], v, where)
+        sf = obs.get("session_file")
+        if sf and not obs["failure"] and case["events"][-1]["e"] == "sessionEnd":
+            exp = counts(desc_tests(obs["final_desc"]))
+            # (the root attribute `tests` holds the PASSED tests: observed, see ASSUMPTIONS)
+            if (sf["tests"], sf["failures"]) != (exp["passed"], exp["failed"]):
+                fails.append(C.Failure("C20/live/junit-file-root-counters",
+                                       "report-junit.xml left by the run: tests=%d failures=%d, the report holds %d passed / %d failed tests"
+                                       % (sf["tests"], sf["failures"], exp["passed"], exp["failed"])))
+        return fails
+
+    def request(self, case, obs):
+        if case.get("kind") == "real":
+            return {"op": "views", "report": R.wire(obs["views"][0]["desc"])} if obs["views"] else None
+        return {"op": "live", "events": R.wire(case["events"]), "nb_threads": case["nb_threads"], "cuts": [v["k"] for v in obs["views"]]}
+
+    def compare(self, case, obs, ans):
+        if "error" in ans:
+            return "model error: " + str(ans["error"])
+        if case.get("kind") == "real":
+            return compare_views(obs["views"][0], ans)
+        if len(ans["views"]) != len(obs["views"]):
+            return "the model evaluates %d views, the implementation %d" % (len(ans["views"]), len(obs["views"]))
+        for n, (v, m) in enumerate(zip(obs["views"], ans["views"]), 1):
+            d = compare_views(v, m)
+            if d:
+                return "evaluation #%d (after event %d): %s" % (n, v["k"], d)
+        return None
+
+    def nontrivial(self, case, obs):
+        if case.get("kind") == "real":
+            return bool(obs["views"]) and obs["views"][0]["stats"]["total"] >= 2 and obs.get("junit_saves", 0) >= 2
+        tot = [v["stats"]["total"] for v in obs["views"]]
+        return len(set(tot)) >= 2
+
+    def features(self, case, obs):
+        if case.get("kind") == "real":
+            f = ["real-run", "real-run:strategy=" + case["strategy"], "real-run:backends=" + "+".join(case["backends"]),
+                 "real-run:threads=%d" % case["spec"]["nb_threads"]]
+            if obs.get("junit_saves", 0) >= 2:
+                f.append("real-run:junit-saved-before-the-end")
+            return f
+        f = ["evaluations=%d" % min(len(obs["views"]), 6), "junit-session=" + str(case.get("junit_session"))]
+        tot = [len(desc_tests(v["desc"])) for v in obs["views"]]
+        if len(set(tot)) >= 2:
+            f.append("tests-added-between-two-evaluations")
+        tops = [len(v["desc"]["suites"]) for v in obs["views"]]
+        if any(a == b and x != y for a, b, x, y in zip(tops, tops[1:], tot, tot[1:])):
+            f.append("tests-added-between-two-evaluations-WITHOUT-new-top-level-suite")
+        if obs["session_saves"] and obs["session_saves"][0] < len(case["events"]) - 1:
+            f.append("junit-session-saved-before-the-end")
+        if any(any(t["res"]["status"] is None for _, t in desc_tests(v["desc"])) for v in obs["views"]):
+            f.append("evaluated-while-a-test-is-in-progress")
+        return f
+
+    def shrink(self, case):
+        if case.get("kind") == "real":
+            spec = case["spec"]
+            for i in range(len(spec["suites"])):
+                if len(spec["suites"]) > 1:
+                    yield dict(case, spec=dict(spec, suites=spec["suites"][:i] + spec["suites"][i + 1:]))
+            for i, su in enumerate(spec["suites"]):
+                if su["subs"]:
+                    yield dict(case, spec=dict(spec, suites=spec["suites"][:i] + [dict(su, subs=[])] + spec["suites"][i + 1:]))
+                for j in range(len(su["tests"])):
+                    if len(su["tests"]) > 1:
+                        s2 = dict(su, tests=su["tests"][:j] + su["tests"][j + 1:])
+                        yield dict(case, spec=dict(spec, suites=spec["suites"][:i] + [s2] + spec["suites"][i + 1:]))
+            if spec["nb_threads"] > 1:
+                yield dict(case, spec=dict(spec, nb_threads=1))
+            return
+        ev = case["events"]
+        for n in (len(ev) // 2, len(ev) * 3 // 4, len(ev) - 1):
+            if 0 < n < len(ev):
+                yield dict(case, events=ev[:n], cuts=sorted({c for c in case["cuts"] if c < n} | {n}))
+        for i, e in enumerate(ev):
+            if e["e"] in ("testStart", "testSkipped", "testDisabled"):
+                pth = e["path"]
+                rest = [x for x in ev if not (x.get("path") == pth and x["e"].startswith("test"))
+                        and not (x.get("loc", {}).get("path") == pth and x.get("loc", {}).get("k") == "test")]
+                if len(rest) < len(ev):
+                    # cuts keep their meaning as "after the same event": renumber
+                    keep = [j for j, x in enumerate(ev, 1) if x in rest]
+                    new_cuts = sorted({sum(1 for j in keep if j <= c) for c in case["cuts"]} - {0} | {len(rest)})
+                    yield dict(case, events=rest, cuts=new_cuts)
+        if len(case["cuts"]) > 2:
+            for c in case["cuts"][:-1]:
+                yield dict(case, cuts=[x for x in case["cuts"] if x != c])
+        if case.get("junit_session"):
+            yield dict(case, junit_session=None)
 
 
 # ---- lcc diff ------------------------------------------------------------------------------------------
@@ -815,5 +1116,25 @@ def _inprogress_failed():
 ViewsStream.corpus = [_inprogress_failed()]       # D7
 
 
+def _live_corpus():
+    """a failed test (the JUnit session saves under the default strategy: first evaluation of the statistics), then a passed test
+    of the SAME top-level suite, then the end of the run (console summary, build_message, final JUnit save)"""
+    def md(name, rank=0):
+        return {"name": name, "desc": name, "tags": [], "props": [], "links": [], "rank": rank}
+    la, t0 = {"k": "test", "path": ["s", "a"]}, 1_600_000_000_000
+    ev = [{"e": "sessionStart"}, {"e": "suiteStart", "path": ["s"], "md": md("s")},
+          {"e": "testStart", "path": ["s", "a"], "md": md("a")},
+          {"e": "stepStart", "loc": la, "desc": "st", "tid": 1},
+          {"e": "check", "loc": la, "step": "st", "tid": 1, "desc": "c", "ok": False, "details": "1 is not 2"},
+          {"e": "stepEnd", "loc": la, "desc": "st", "tid": 1}, {"e": "testEnd", "path": ["s", "a"]},
+          {"e": "testStart", "path": ["s", "b"], "md": md("b", 1)}, {"e": "testEnd", "path": ["s", "b"]},
+          {"e": "suiteEnd", "path": ["s"]}, {"e": "sessionEnd"}]
+    for i, e in enumerate(ev):
+        e["t"] = t0 + 10 * i
+    return [{"events": ev, "nb_threads": 1, "cuts": [7, 11], "junit_session": "at_each_failed_test"},
+            {"events": ev, "nb_threads": 1, "cuts": [11], "junit_session": "at_each_test"}]
+
+
 def streams(ctx):
-    return [ViewsStream(), ShortStream(), DiffStream()]
+    LiveStream.corpus = _live_corpus()
+    return [ViewsStream(), ShortStream(), LiveStream(), DiffStream()]
